@@ -11,6 +11,8 @@ Directive grammar (each on its own line, inside the template):
   //@sig <replacement signature>                                          (rules X1/X3/X4/X6/X7)
   //@contract            following lines (until next //@) go between signature and body
   //@rule <ID> <count|*> s<delim>regex<delim>replacement<delim>            applied to the body
+  //@rule <ID> <count|*> closure<delim>anchor-regex<delim>header<delim>    every `<anchor>([move] |x| BODY)`: the closure gets
+             `header` (`$x` = its parameter) and BODY is kept verbatim as the block the header's contract is proved about
   //@loops <n>           the body must contain exactly n loops (else lost anchor)
   //@loop <k>            following lines go between the k-th loop header and its '{'
   //@attr <line>         attribute line put before the item (e.g. #[verifier::exec_allows_no_decreases_clause])
@@ -118,7 +120,54 @@ def locate_item(src, mask, item, within):
     return item_start, sig_start, b, end
 
 
+def apply_closure_rule(body, rid, want, delim, rest, counts):
+    """`//@rule <ID> <n> closure<d>anchor-regex<d>header<d>`: every `<anchor>( [move] |x| BODY )` gets the
+    header (with `$x` standing for the parameter name) and BODY, whatever its shape, is kept as the
+    block the header's contract is proved about: the contract comes from the property, not the body."""
+    parts = rest.split(delim)
+    if len(parts) < 3:
+        raise Undecided(f"bad //@rule: {rid} closure")
+    anchor, header = parts[0], parts[1]
+    rx = re.compile(anchor + r"\(\s*(move\s+)?\|\s*(\w+)\s*\|\s*", re.S)
+    mask = rscan.code_mask(body)
+    out, pos, n = [], 0, 0
+    for m in rx.finditer(body):
+        if m.start() < pos or not mask[m.start()]:
+            continue
+        # the opening paren of the call is the first '(' after the anchor text
+        open_paren = body.index("(", m.start() + len(re.match(anchor, body[m.start():], re.S).group(0)) - 0)
+        depth, i = 0, open_paren
+        while i < len(body):
+            if mask[i]:
+                if body[i] in "([{":
+                    depth += 1
+                elif body[i] in ")]}":
+                    depth -= 1
+                    if depth == 0:
+                        break
+            i += 1
+        if i >= len(body):
+            raise Undecided(f"lost anchor: rule {rid}: unbalanced call after /{anchor}/")
+        inner = body[m.end():i].rstrip()
+        if inner.endswith(","):
+            inner = inner[:-1].rstrip()
+        if not (inner.startswith("{") and inner.endswith("}") and rscan.match_brace(inner, rscan.code_mask(inner), 0) == len(inner) - 1):
+            inner = "{ " + inner + " }"
+        out.append(body[pos:open_paren + 1])
+        out.append((m.group(1) or "") + header.replace("\\n", "\n").replace("$x", m.group(2)) + " " + inner)
+        pos = i
+        n += 1
+    out.append(body[pos:])
+    counts[rid] = counts.get(rid, 0) + n
+    if want != "*" and int(want) != n:
+        raise Undecided(f"lost anchor: rule {rid} expected {want} closure argument(s) after /{anchor}/, found {n}")
+    return "".join(out)
+
+
 def apply_rule(body, spec, counts):
+    m = re.match(r"(\S+)\s+(\S+)\s+closure(.)(.*)$", spec, re.S)
+    if m:
+        return apply_closure_rule(body, m.group(1), m.group(2), m.group(3), m.group(4), counts)
     m = re.match(r"(\S+)\s+(\S+)\s+s(.)(.*)$", spec, re.S)
     if not m:
         raise Undecided(f"bad //@rule: {spec}")
